@@ -6,6 +6,7 @@ hypothesis is met (non-vacuity) and, on files with non-canonical values, that it
 (`shaped`, `valid`) is decided on the members the record's layout names (values are functions).
 -/
 import IclModel.Lemmas.RecCanon
+import IclModel.Lemmas.RecCanonE
 import IclModel.FileOKCheck
 namespace Icl.C01
 open Icl Icl.Wire
@@ -126,5 +127,19 @@ def canonFileWhy (m : Model) (f : File Vals) : String :=
     recCanonFirst m .fileHeader [f.header],
     (let w := recCanonWhy m .fileControl {} f.control; if w == "" then "" else "FileControl: " ++ w),
     firstNonEmpty (f.cashLetters.map (cashLetterCanonWhy m))]
+
+
+/-! ### the additional hypotheses of the EBCDIC theorems (`CanonFileE`): safe text, no record 52 -/
+
+def safeWhy (m : Model) (krs : List (Kind × Option Vals)) : String :=
+  match krs.find? (fun kr => match kr.2 with
+      | some v => kr.1 == .ivData || !(lineOf m kr.1 (some v)).all (safeB m.cm)
+      | none => true) with
+  | none => ""
+  | some kr => if kr.1 == .ivData then "record 52 present" else kr.1.goName ++ ": text outside the code page"
+
+/-- the decidable part of `CanonFileE m f`: "" when it holds -/
+def canonFileEWhy (m : Model) (f : File Vals) : String :=
+  firstNonEmpty [canonFileWhy m f, safeWhy m f.flatten]
 
 end Icl.C01
